@@ -148,6 +148,7 @@ def members():
     m["outcome_close"] = Builtin("outcome_close", s_close)
     m["repo"] = Builtin("repo", s_repo)
     m["new_object"] = Builtin("new_object", s_new_object)
+    m["pi_const"] = Builtin("pi_const", lambda E, a, k: BM.pi_value(E))
     m["abstract_int"] = Builtin("abstract_int", s_abstract_int)
     m["AssumptionFailed"] = None
     for n in ("NATIVE_ABSTRACT", "NATIVE_OPAQUE", "NATIVE_UF"):
